@@ -154,6 +154,11 @@ pub fn challenge_aware_across_points<S: Scheme>(
         } else {
             ctx.count("schedule-mismatch", 1);
         }
+        // the batch verifier takes from the caller's sponge exactly the per-polynomial opening challenges (its batching
+        // randomizers come from the verifier's own RNG; a randomizer squeezed from the public transcript is predictable)
+        if with_reference {
+            ctx.check(off == ch.len(), "verifier-squeezes-only-opening-challenges", "batch_check", txj.clone(), || json!({"squeezed_elements": ch.len(), "opening_challenges": off}));
+        }
     }
 }
 
@@ -338,6 +343,82 @@ fn case<S: Scheme>(ctx: &mut Ctx, rng: &mut ChaCha20Rng) {
     }
 }
 
+/// PST13, coordinated shape + forgery: the proof of the FIRST point label loses its last witness (harmless on its
+/// own when the polynomials opened there do not involve the last variable and nothing is blinded: that witness is the
+/// identity), and the proof of a later label is replaced by w = (0, .., 0, (v' G - C) / z_last) for false values v',
+/// with C and v' combined under the public opening challenges. A batch verifier that sizes its per-variable
+/// accumulators from the first proof never pairs the last witness of the later proof.
+fn pst13_short_first_proof(ctx: &mut Ctx, rng: &mut ChaCha20Rng) {
+    use crate::schemes::{mv_poly, Cfg, Pst13S, Shape, E381};
+    use ark_ec::{AffineRepr, CurveGroup};
+    use ark_ff::Field;
+    use ark_poly::multivariate::{SparsePolynomial, SparseTerm, Term};
+    use ark_poly::DenseMVPolynomial;
+    use ark_poly_commit::{marlin_pst13_pc, LabeledPolynomial, QuerySet};
+    type S = Pst13S<E381>;
+    type Fr = ark_bls12_381::Fr;
+    let nv = range(rng, 2, 4);
+    let d = range(rng, 1, 3);
+    let cfg = Cfg { max_degree: d, num_vars: Some(nv), supported_degree: d, supported_hiding: d, enforced: None };
+    let w = match make_world::<S>(&cfg, rng) {
+        Ok(w) => w,
+        Err(_) => return ctx.skipped("baseline", "setup refused"),
+    };
+    // polynomials for the first label: no term involves the last variable
+    let strip = |p: SparsePolynomial<Fr, SparseTerm>| -> SparsePolynomial<Fr, SparseTerm> {
+        let terms: Vec<(Fr, SparseTerm)> = p.terms().iter().filter(|(_, t)| !t.vars().contains(&(nv - 1))).cloned().collect();
+        SparsePolynomial::from_coefficients_vec(nv, terms)
+    };
+    let pa: LPoly<S> = LabeledPolynomial::new("pa".into(), strip(mv_poly::<Fr>(nv, Shape::Full, d, rng)), None, None);
+    let pb: LPoly<S> = LabeledPolynomial::new("pb".into(), mv_poly::<Fr>(nv, Shape::Full, d, rng), None, None);
+    let polys = vec![pa, pb];
+    let c = match commit::<S>(&w.ck, &polys, rng.next_u64()) {
+        Ok(c) => c,
+        Err(_) => return ctx.skipped("baseline", "commit refused"),
+    };
+    let tx = Tx::<S> { w, specs: vec![], polys, c, pre: b"c05-pst13".to_vec(), commit_seed: 0 };
+    let (za, zb) = (<S as Scheme>::gen_point(&cfg, rng), <S as Scheme>::gen_point(&cfg, rng));
+    if zb[nv - 1].is_zero() {
+        return ctx.skipped("short-first-proof-forgery", "last coordinate of the second point is zero");
+    }
+    let mut qs: QuerySet<PtOf<S>> = QuerySet::new();
+    qs.insert(("pa".to_string(), ("a".to_string(), za.clone())));
+    qs.insert(("pb".to_string(), ("b".to_string(), zb.clone())));
+    let q = Queries::<S> { evals: { let mut e = Evaluations::new(); e.insert(("pa".to_string(), za.clone()), tx.polys[0].evaluate(&za)); e.insert(("pb".to_string(), zb.clone()), tx.polys[1].evaluate(&zb)); e }, groups: groups_of::<S>(&qs), qs };
+    let proof = match batch_open::<S>(&tx, &[0, 1], &q.qs, &mut tx.sponge(), 2) {
+        Ok(p) => p,
+        Err(_) => return ctx.skipped("baseline", "honest batch_open refused"),
+    };
+    let proofs: Vec<marlin_pst13_pc::Proof<E381>> = proof.clone().into();
+    if proofs.len() != 2 || proofs[0].w.len() != nv {
+        return ctx.skipped("baseline", "unexpected proof shape");
+    }
+    // opening challenges of the two groups (one per unbounded polynomial, in group order)
+    let mut spv = tx.sponge();
+    let _ = batch_check::<S>(&tx.w.vk, &tx.c.comms, &q.qs, &q.evals, &proof, &mut spv, 2);
+    let ch: Vec<Fr> = spv.squeezed_fes();
+    if ch.len() != 2 || ch[1].is_zero() {
+        return ctx.skipped("short-first-proof-forgery", "challenge schedule differs from the model");
+    }
+    let delta = Fr::from(1u64) + <Fr as ark_ff::UniformRand>::rand(rng);
+    let v_false = q.evals[&("pb".to_string(), zb.clone())] + delta;
+    let cb = tx.c.comms[1].commitment().comm.0.into_group() * ch[1];
+    let w_last = ((tx.w.vk.g.into_group() * (ch[1] * v_false) - cb) * zb[nv - 1].inverse().unwrap()).into_affine();
+    let mut wv = vec![<E381 as ark_ec::pairing::Pairing>::G1Affine::zero(); nv];
+    wv[nv - 1] = w_last;
+    let mut short = proofs[0].clone();
+    short.w.pop();
+    let forged = vec![short, marlin_pst13_pc::Proof { w: wv, random_v: None }];
+    let mut ev = q.evals.clone();
+    ev.insert(("pb".to_string(), zb.clone()), v_false);
+    let desc = json!({"num_vars": nv, "degree": d, "first_proof_witnesses": nv - 1});
+    let (refd, routs) = per_point::<S>(&tx, &q.groups, &ev, &forged, &mut tx.sponge());
+    let bp: BatchProofOf<S> = forged.into();
+    let o = batch_check::<S>(&tx.w.vk, &tx.c.comms, &q.qs, &ev, &bp, &mut tx.sponge(), rng.next_u64());
+    ctx.check(!(o.is_accept() && !refd), "batch-vs-single-mismatch", "batch_check", desc.clone(), || json!({"batch": o.json(), "per_point_all_accept": refd, "per_point": routs}));
+    ctx.check(!o.is_accept(), "short-first-proof-forgery", "batch_check", desc, || json!({"batch": o.json()}));
+}
+
 pub fn run(ctx: &mut Ctx) {
     crate::schemes::set_custom_params(true);
     for_each_scheme!(ctx, S, {
@@ -351,5 +432,7 @@ pub fn run(ctx: &mut Ctx) {
         ctx.run_cases(&format!("{}/large", <S as Scheme>::NAME), n, |ctx, _i, rng| case::<S>(ctx, rng));
     });
     crate::schemes::set_large(false);
+    let n = ctx.n(20, 300);
+    ctx.run_cases("pst13/short-first-proof", n, |ctx, _i, rng| pst13_short_first_proof(ctx, rng));
     super::offtrait::c05(ctx);
 }
